@@ -3,7 +3,7 @@ NEXT SimNext
 CONSTANTS
   Nodes = {1, 2, 3}
   Locals = {1}
-  Levels = {"machine", "machine", "reactor"}
+  Levels = {"machine", "reactor"}
   MaxOp = 1000
   BatchIds = {1, 2, 3}
   MaxOff = 9
